@@ -366,13 +366,15 @@ def parseInt? (s : Str) : Option Int :=
 
 def stepName : Str := "Step".toList
 
-def tableRows (t : Table) : Except Err (List Row) :=
+/-- rows with their `Step`; when `needStep` is false (style `all`, which never looks at `Step`) a missing
+    or non-integer `Step` is tolerated. -/
+def tableRows (needStep : Bool) (t : Table) : Except Err (List Row) :=
   t.rows.mapM (fun r =>
     let cells := t.cols.zip r
     match (cells.find? (fun c => c.1 == stepName)) with
-    | none => .error .attr
+    | none => if needStep then .error .attr else .ok ⟨0, cells⟩
     | some c => match parseInt? c.2 with
-      | none => .error .type
+      | none => if needStep then .error .type else .ok ⟨0, cells⟩
       | some s => .ok ⟨s, cells⟩)
 
 /-- Python slice `l[a:b]` with `None`/negative bounds. -/
@@ -404,7 +406,7 @@ def flattenTables (style : Str) (tabs : List Table) : Except Err Table :=
     -- `merged_df.Step` / `thermo.Step` attribute access on a table without that column
     else if !isAll && (t :: ts).any (fun t => !t.cols.contains stepName) then .error .attr
     else
-      match (t :: ts).mapM tableRows with
+      match (t :: ts).mapM (tableRows (!isAll)) with
       | .error e => .error e
       | .ok rows =>
         let merged :=
